@@ -60,6 +60,43 @@ def two_blocks_conflict(n: str, a: str, b: str, k: int) -> bool:
     return _two(n, n, a, b, k)
 
 
+def _same_name_two_lines(a, b, c, d, k, k2, x, y):
+    "two blocks with ONE name: field k holds [a, b] vs [c, d], a second field k2 holds [x] vs [y]; identical -> one block, else ValueError"
+    f, f2 = _field(k), _field(k2)
+    m1 = {"metadata_type": "inject_code", "name": "blk", f: [a, b]}
+    m2 = {"metadata_type": "inject_code", "name": "blk", f: [c, d]}
+    if f2 != f:
+        m1[f2] = [x]
+        m2[f2] = [y]
+    same = a == c and b == d and (f2 == f or x == y)
+    try:
+        r = process_metadata([m1, m2])
+    except ValueError:
+        return not same
+    if not same:
+        return False                                      # a different content under the same name must be refused
+    e = _executor_with(r)
+    return e._ib_fetch(f) == [a, b]
+
+
+def same_name_two_lines(a: str, b: str, c: str, d: str, k: int) -> bool:
+    """
+    pre: len(a) == 1 and len(b) == 1 and len(c) == 1 and len(d) == 1 and 0 <= k <= 6
+    pre: "a" <= a <= "b" and "a" <= b <= "b" and "a" <= c <= "b" and "a" <= d <= "b"
+    post: _
+    """
+    return _same_name_two_lines(a, b, c, d, k, k, "", "")
+
+
+def same_name_second_field_differs(a: str, x: str, y: str, k: int, k2: int) -> bool:
+    """
+    pre: len(a) == 1 and len(x) == 1 and len(y) == 1 and 0 <= k <= 6 and 0 <= k2 <= 6 and k != k2
+    pre: "a" <= a <= "b" and "a" <= x <= "b" and "a" <= y <= "b"
+    post: _
+    """
+    return _same_name_two_lines(a, a, a, a, k, k2, x, y)
+
+
 def lines_in_block_order(a: str, b: str, k: int) -> bool:
     """
     pre: len(a) <= 2 and len(b) <= 2 and 0 <= k <= 6
